@@ -47,8 +47,13 @@ theorem populateLimit_range (d v : Int) (hd : 0 ≤ d) (hd2 : d ≤ maxStreamCou
   simp only [populateLimit]
   split <;> split <;> (try split) <;> omega
 
-theorem coverConfig_eq (conf p : Limits) : coverConfig conf p = ⟨max conf.bidi p.bidi, max conf.uni p.uni⟩ := by
-  simp [coverConfig, maxOver, paramField, Uquic.Gen.Streams.coverKeepsConfig, Uquic.Gen.Streams.coverBidiSources,
-    Uquic.Gen.Streams.coverUniSources]
+/-- the fixed tree: the covering Config carries exactly the advertised stream limits -/
+theorem coverConfig_eq (conf p : Limits) : coverConfig conf p = p := by
+  simp [coverConfig, coverConfigWith, coverOne, maxOver, paramField, Uquic.Gen.Streams.coverKeepsConfig,
+    Uquic.Gen.Streams.coverBidiSources, Uquic.Gen.Streams.coverUniSources]
+
+/-- the old shape: pointwise maximum of Config and advertised -/
+theorem coverConfigMax_eq (conf p : Limits) : coverConfigMax conf p = ⟨max conf.bidi p.bidi, max conf.uni p.uni⟩ := by
+  simp [coverConfigMax, coverConfigWith, coverOne, maxOver, paramField]
 
 end Uquic.Proofs.Streams
